@@ -74,6 +74,14 @@ func c20KnownPattern(sp c20Spec, o c20Outcome) string {
 	return c20F20
 }
 
+// c20Known: every listed pattern (F20 and the round-4 findings of c20_cols.go)
+func c20Known(sp c20Spec, o c20Outcome) string {
+	if id := c20KnownPattern4(sp, o); id != "" {
+		return id
+	}
+	return c20KnownPattern(sp, o)
+}
+
 func init() {
 	// ---- end-to-end oracle: generated histories on SQLite -------------------------------------
 	register("C20", func(r *Result, rng *rand.Rand, tier string) {
@@ -102,6 +110,25 @@ func init() {
 			}
 		} else {
 			r.Note("finding %s no longer reproduces on its witness (stage %s)", c20F20, o.Stage)
+		}
+		// dedicated probes of the round-4 findings (c20_cols.go), each on its witness
+		for _, pw := range []struct {
+			id string
+			sp c20Spec
+		}{
+			{c20F31, c20Spec{Table: "gen_items", Qual: "main", Rows: 1, V1: []c20Field{{Name: "ID", Kind: "uint"}, {Name: "FA", Kind: "int"}}, V2: []c20Field{{Name: "ID", Kind: "uint"}, {Name: "FA", Kind: "int", Tag: "unique"}}}},
+			{c20F33, c20Spec{Table: "gen_items", Rows: 1, V1: []c20Field{{Name: "ID", Kind: "uint"}, {Name: "SA", Kind: "int", Tag: "column:shared_c"}, {Name: "SB", Kind: "string", Tag: "column:shared_c;unique"}}, V2: []c20Field{{Name: "ID", Kind: "uint"}, {Name: "SA", Kind: "int", Tag: "column:shared_c"}, {Name: "SB", Kind: "string", Tag: "column:shared_c;unique"}}}},
+			{c20F34, c20Spec{Table: "gen_items", Rows: 1, V1: []c20Field{{Name: "ID", Kind: "uint"}, {Name: "FN", Kind: "int", Tag: "type:int(11)"}}, V2: []c20Field{{Name: "ID", Kind: "uint"}, {Name: "FN", Kind: "int", Tag: "type:int(11)"}}}},
+		} {
+			o := c20RunHistory(pw.sp)
+			switch id := c20Known(pw.sp, o); {
+			case o.Verdict == "":
+				r.Note("finding %s no longer reproduces on its witness (stage %s)", pw.id, o.Stage)
+			case id == pw.id && listed(id):
+				r.KnownFinding(id, o.Verdict+": "+o.Observed+o.Err)
+			default:
+				r.Violate(Violation{Kind: "e2e", Suite: "history", Input: pw.sp, Observed: o, Expected: o.Expected, Note: o.Verdict})
+			}
 		}
 		for i := 0; i < n && !expired(); i++ {
 			sp := c20GenSpec(rng, probe || rng.Intn(12) == 0)
